@@ -628,7 +628,7 @@ UNRELATED_DATA_CARDS = ['mode n p', 'nps 1000', 'print', 'sdef pos=0 0 0 erg=14'
                         'kcode 1000 1.0 10 50', 'ksrc 0 0 0', 'phys:n 20 0',
                         'cut:n j 0', 'tmp1 2.53e-8 2.53e-8', 'vol 1 1',
                         'totnu', 'mpn1 0 8016', 'm0 nlib=70c', 'prdmp j j 1',
-                        'thtme 0', 'ctme 10']
+                        'thtme 0', 'ctme 10', '+f6 1', '*f8:p 1', '+f8:e 1']
 
 
 @st.composite
